@@ -90,3 +90,86 @@ Example clear_on_success_refuted :
   dobs (drun ClearOnSuccess dinit [DConnect; DSend 1; DClose ModeSwitchRaises; DSend 2; DConnect]) = [0; 1; 0; 1; 2; 2] /\
   dobs (drun ClearAlways dinit [DConnect; DSend 1; DClose ModeSwitchRaises; DSend 2; DConnect]) = [0; 1; 0; 0; 0; 1].
 Proof. vm_compute. auto. Qed.
+
+(* ================================================================================================
+   The out queue of a driver object (RadioDriver): send_packet puts the packet into the queue the object currently
+   refers to — also when the driver is closed; the comm thread of the CURRENT connection takes packets from the queue it
+   was created with and transmits them.  Variant FreshQueues = the code: connect() creates new queues (a packet put after
+   close() sits in the abandoned queue for ever).  Variant KeptQueues = the seeded change C10-m: connect() keeps the queue
+   object, close() drains it — a packet put after the drain is transmitted by the next connection. *)
+Inductive queuev := FreshQueues | KeptQueues.
+
+Record qstate := mkQ {
+  q_open : bool;
+  q_sess : Z;                          (* number of the current / last connection, from 1 *)
+  q_queue : list (Z * option Z);       (* queue the object refers to: (packet, session it was sent in while open) *)
+  q_frames : list (Z * Z * option Z)   (* ghost: transmitted (session, packet, tag), newest first *)
+}.
+
+Definition qinit : qstate := mkQ false 0 [] [].
+
+Inductive qop := QConnect | QSend (p : Z) | QClose | QPump.
+
+Definition qstep (v : queuev) (s : qstate) (o : qop) : qstate :=
+  match o with
+  | QConnect =>
+      if q_open s then s                                       (* "Link already open!" *)
+      else mkQ true (q_sess s + 1) (match v with FreshQueues => [] | KeptQueues => q_queue s end) (q_frames s)
+  | QSend p =>
+      mkQ (q_open s) (q_sess s) (q_queue s ++ [(p, if q_open s then Some (q_sess s) else None)]) (q_frames s)
+  | QClose =>
+      if q_open s then mkQ false (q_sess s) [] (q_frames s)    (* stop the thread, drain the queue *)
+      else s
+  | QPump =>                                                   (* the comm thread transmits what is queued *)
+      if q_open s
+      then mkQ true (q_sess s) [] (rev (map (fun e => (q_sess s, fst e, snd e)) (q_queue s)) ++ q_frames s)
+      else s
+  end.
+
+Fixpoint qrun (v : queuev) (s : qstate) (ops : list qop) : qstate :=
+  match ops with
+  | [] => s
+  | o :: ops' => qrun v (qstep v s o) ops'
+  end.
+
+Definition qobs (s : qstate) : list Z := concat (map (fun f => [fst (fst f); snd (fst f)]) (rev (q_frames s))).
+
+(* every frame transmitted in session n carries a packet that was handed to send_packet during session n while the
+   driver was open *)
+Definition frames_ok (s : qstate) : Prop := Forall (fun f => snd f = Some (fst (fst f))) (q_frames s).
+Definition queue_ok (s : qstate) : Prop :=
+  q_open s = true -> Forall (fun e => snd e = Some (q_sess s)) (q_queue s).
+
+Lemma qstep_inv s o : frames_ok s -> queue_ok s -> frames_ok (qstep FreshQueues s o) /\ queue_ok (qstep FreshQueues s o).
+Proof.
+  intros F Q. destruct o as [|p| |]; cbn [qstep].
+  - destruct (q_open s) eqn:O; [auto|]. split; [exact F|]. intros _. constructor.
+  - split; [exact F|]. unfold queue_ok. cbn [q_open q_sess q_queue]. intros O. apply Forall_app. split; [apply Q; exact O|].
+    rewrite O. repeat constructor.
+  - destruct (q_open s) eqn:O; [|auto]. split; [exact F|]. unfold queue_ok. cbn. discriminate.
+  - destruct (q_open s) eqn:O; [|auto]. split.
+    + unfold frames_ok. cbn [q_frames]. apply Forall_app. split; [|exact F].
+      apply Forall_rev. apply Forall_forall. intros f I. apply in_map_iff in I as (e & <- & Ie). cbn [fst snd].
+      specialize (Q O). rewrite Forall_forall in Q. exact (Q e Ie).
+    + unfold queue_ok. cbn. intros _. constructor.
+Qed.
+
+Theorem session_frames_are_session_sends : forall ops s, frames_ok s -> queue_ok s ->
+  frames_ok (qrun FreshQueues s ops).
+Proof.
+  induction ops as [|o ops IH]; intros s F Q; cbn [qrun]; [exact F|].
+  destruct (qstep_inv s o F Q) as [F1 Q1]. apply IH; assumption.
+Qed.
+
+Corollary session_frames_from_init ops : frames_ok (qrun FreshQueues qinit ops).
+Proof. apply session_frames_are_session_sends; [constructor | unfold queue_ok; cbn; discriminate]. Qed.
+
+(* refutation for the kept queue: a packet handed to the closed driver after the drain is transmitted in the next session *)
+Example kept_queue_refuted :
+  let ops := [QConnect; QSend 1; QPump; QClose; QSend 2; QConnect; QPump] in
+  q_frames (qrun KeptQueues qinit ops) = [(2, 2, None); (1, 1, Some 1)] /\ ~ frames_ok (qrun KeptQueues qinit ops) /\
+  q_frames (qrun FreshQueues qinit ops) = [(1, 1, Some 1)].
+Proof.
+  cbv zeta. split; [vm_compute; reflexivity|]. split; [|vm_compute; reflexivity].
+  intros F. vm_compute in F. inversion F as [|? ? H _]. discriminate.
+Qed.
